@@ -21,6 +21,7 @@ def run(tier, seed):
     # the same small-object families on the project's optimised build (no sanitizer): exit status only
     jobs.append(Job("c18", "optim", "spqlios-fma", {"mode": "trunc", "tfrom": 0, "tto": 11, "seed": seed + 7}, label="trunc optim"))
     jobs.append(Job("c18", "optim", "spqlios-fma", {"mode": "subst", "seed": seed + 7}, label="subst optim"))
+    jobs.append(Job("c18", "optim", "spqlios-fma", {"mode": "corrupt", "tfrom": 0, "tto": 11, "seed": seed + 7}, label="corrupt optim (NDEBUG build: checks must not rest on assert)"))
     if not q:
         for s2 in range(1, 6):   # other generated small instances
             jobs.append(Job("c18", "asan", "spqlios-fma", {"mode": "trunc", "tfrom": 0, "tto": 11, "seed": seed + 100 * s2}, env=ENV, label="trunc seed+%d" % s2))
